@@ -31,9 +31,20 @@ def digest(v, problems=None, path="top"):
         return {k: digest(x, problems, path + "{}") for k, x in v.items()}
     if v is None or isinstance(v, (str, int, bool)):
         return v
-    if callable(v) and hasattr(v, "__class__"):
-        return {"object": type(v).__name__}
-    return {"object": type(v).__name__, "repr": repr(v)}
+    d = getattr(v, "__dict__", None)
+    if isinstance(d, dict) and path.count(".") < 8:
+        attrs = {}
+        for k in sorted(d):
+            if k.startswith("__"):
+                continue
+            x = d[k]
+            if x is None or isinstance(x, (str, int, bool, float, list, tuple, dict)) or hasattr(x, "__dict__"):
+                if callable(x) and not hasattr(x, "getSectionAttributes") and type(x).__name__ in ("function", "method", "builtin_function_or_method"):
+                    attrs[k] = {"callable": getattr(x, "__name__", "?")}
+                else:
+                    attrs[k] = digest(x, problems, path + "." + k)
+        return {"object": type(v).__name__, "vars": attrs}
+    return {"object": type(v).__name__}
 
 
 def containers(v, out=None):
